@@ -44,6 +44,7 @@ def run(ctx):
     ctx.guard(chain_rule, ctx)
     ctx.guard(roles, ctx)
     ctx.guard(literals, ctx)
+    ctx.guard(emits, ctx)
     from . import sentential
     ctx.guard(sentential.rule, ctx)
     from . import scope as _scope
@@ -344,6 +345,34 @@ def roles(ctx):
 
 
 # ---------------------------------------------------------------------------
+def emits(ctx):
+    '''no construct is dropped from the generated text: every path through a generator writes something or hands on to another
+    generator (an early return before the first piece silently loses the construct, e.g. an else clause with an empty block)'''
+    from .. import cfg as cfgmod
+    repo = ctx.repo
+    r = ctx.rule('C05-EMITS', 'every path through a text generator emits text or delegates to another generator', floor=60,
+                 oracle='property statement (same statements in the same order and nesting)')
+    cls = repo.cls(TG)
+    for m in cls.body:
+        if not (isinstance(m, ast.FunctionDef) and m.name.startswith('accept_')):
+            continue
+        g = cfgmod.build(m)
+        bad = None
+        for p_ in g.paths(follow_exc=False):
+            if p_[-1][0].kind == 'raise':
+                continue
+            em = any(n.kind in ('stmt', 'test', 'for') and n.ast is not None and any(
+                isinstance(c, ast.Call) and isinstance(c.func, ast.Attribute) and c.func.attr in ('buf', 'buf_linebreak', 'accept', 'default_accept')
+                for c in ast.walk(n.ast)) for n, _ in p_)
+            if not em:
+                bad = p_
+                break
+        q = TG + '.' + m.name
+        r.check(bad is None, '%s writes or delegates on every path' % m.name, m, construct=q, key='silent-path',
+                msg='%s has a path that ends without writing anything (%s): the construct is silently missing from the generated text' % (
+                    q, ' ; '.join(src(n.ast).split('\n')[0][:40] for n, _ in (bad or []) if n.ast is not None and n.kind in ('test', 'stmt'))[:160]))
+
+
 def literals(ctx):
     repo = ctx.repo
     r = ctx.rule('C05-LITERALS', 'literal, operator, phrase and relationship-number encodings are inverse pairs', floor=9,
